@@ -1,5 +1,5 @@
 (* Proofs/HipReportProofs.v - the HIP-RA-X report line and its parse by the client (Model/HipReport.v), for C17. *)
-From Coq Require Import String Ascii QArith Qabs ZArith List Bool Lia.
+From Coq Require Import String Ascii QArith Qabs Qpower ZArith List Bool Lia Lqa.
 From Verif Require Import Base.Flat Model.Fmt Proofs.FmtProofs Gen.HipTables Model.HipRa Model.HipReport.
 Import ListNotations.
 Open Scope Z_scope.
@@ -309,3 +309,90 @@ Qed.
 Lemma printed_fixed_close q : (Qabs (printed KFix q - q) <= (1#2) / inject_Z (pow10 2))%Q /\
                               (Qabs (printed KPct q - 100 * q) <= (1#2) / inject_Z (pow10 2))%Q.
 Proof. split; apply shown_within_half_ulp. Qed.
+
+(* ---------------- a '10.2e' field is the value rounded to three significant digits ---------------- *)
+Open Scope Q_scope.
+Lemma Qpow10_power z : Qpow10 z == (10#1) ^ z.
+Proof.
+  unfold Qpow10. destruct (z <? 0)%Z eqn:E.
+  - apply Z.ltb_lt in E. destruct z as [|p|p]; try lia.
+    change (- Z.neg p)%Z with (Z.pos p).
+    assert (P : (0 < 10 ^ Z.pos p)%Z) by (apply Z.pow_pos_nonneg; lia).
+    change ((10#1) ^ Z.neg p) with (/ ((10#1) ^ Z.pos p)).
+    rewrite <- (Zpower_Qpower 10 (Z.pos p)) by lia.
+    destruct (10 ^ Z.pos p)%Z as [|n|n] eqn:En; try lia. reflexivity.
+  - apply Z.ltb_ge in E. apply Zpower_Qpower. exact E.
+Qed.
+
+Lemma Qpow10_pos z : 0 < Qpow10 z.
+Proof. rewrite Qpow10_power. apply Qpower_0_lt. reflexivity. Qed.
+
+Lemma Qpow10_add a b : Qpow10 (a + b) == Qpow10 a * Qpow10 b.
+Proof. rewrite !Qpow10_power. apply Qpower_plus. discriminate. Qed.
+
+Lemma Qpow10_2 : Qpow10 2 == 100. Proof. reflexivity. Qed.
+Lemma Qpow10_3 : Qpow10 3 == 1000. Proof. reflexivity. Qed.
+
+Lemma sign_sq (b : bool) : (if b then -(1) else 1) * (if b then -(1) else 1) == 1.
+Proof. destruct b; reflexivity. Qed.
+
+Lemma sci_shown_close q : ~ q == 0 -> sig_ok q = true ->
+  Qabs (sci_shown q 2 - q) <= (1#2) * Qpow10 (ilog10 q - 2).
+Proof.
+  intros Hq Hok. unfold sig_ok in Hok. apply andb_true_iff in Hok. destruct Hok as [Hlo Hhi].
+  apply Qle_bool_iff in Hlo. apply negb_true_iff in Hhi.
+  assert (Hhi' : Qabs q < Qpow10 (ilog10 q + 1)).
+  { apply Qnot_le_lt. intros H. apply Qle_bool_iff in H. congruence. }
+  clear Hhi. set (x := ilog10 q) in *.
+  unfold sci_shown. destruct (Qeq_bool q 0) eqn:E0; [apply Qeq_bool_iff in E0; contradiction|].
+  unfold sig_round. fold x. change (Z.of_nat 3 - 1 - x)%Z with (2 - x)%Z.
+  set (y := Qabs q * Qpow10 (2 - x)).
+  set (m := round_half_even y).
+  pose proof (round_half_even_bound y) as Hb. fold m in Hb.
+  pose proof (Qpow10_pos (2 - x)) as P1. pose proof (Qpow10_pos (x - 2)) as P2.
+  assert (Inv : Qpow10 (2 - x) * Qpow10 (x - 2) == 1).
+  { rewrite <- Qpow10_add. replace (2 - x + (x - 2))%Z with 0%Z by lia. reflexivity. }
+  assert (Y1 : 100 <= y).
+  { unfold y. rewrite <- Qpow10_2. replace 2%Z with (x + (2 - x))%Z at 1 by lia. rewrite Qpow10_add.
+    apply Qmult_le_compat_r; [exact Hlo | apply Qlt_le_weak; exact P1]. }
+  assert (Y2 : y < 1000).
+  { unfold y. rewrite <- Qpow10_3. replace 3%Z with ((x + 1) + (2 - x))%Z by lia. rewrite Qpow10_add.
+    apply Qmult_lt_compat_r; [exact P1 | exact Hhi']. }
+  assert (Aq : Qabs q == y * Qpow10 (x - 2)).
+  { unfold y. rewrite <- Qmult_assoc, Inv. ring. }
+  assert (Sq : q == (if qneg q then -(1) else 1) * Qabs q).
+  { rewrite (Qabs_of_sign q). rewrite Qmult_assoc, sign_sq. ring. }
+  apply Qabs_Qle_condition in Hb. destruct Hb as [Hb1 Hb2].
+  assert (M1 : (100 <= m)%Z).
+  { assert (inject_Z 99 < inject_Z m) by (change (inject_Z 99) with 99; lra).
+    rewrite <- Zlt_Qlt in H. lia. }
+  assert (M2 : (m <= 1000)%Z).
+  { assert (inject_Z m < inject_Z 1001) by (change (inject_Z 1001) with 1001; lra).
+    rewrite <- Zlt_Qlt in H. lia. }
+  (* both branches: the shown value is sign * v * 10^(x-2) with |v - y| <= 1/2 *)
+  assert (Core : forall v : Q, Qabs (v - y) <= 1#2 ->
+            Qabs ((if qneg q then -(1) else 1) * (v * Qpow10 (x - 2)) - q) <= (1#2) * Qpow10 (x - 2)).
+  { intros v Hv. rewrite Sq at 2. rewrite Aq.
+    setoid_replace ((if qneg q then -(1) else 1) * (v * Qpow10 (x - 2)) - (if qneg q then -(1) else 1) * (y * Qpow10 (x - 2)))
+      with (((if qneg q then -(1) else 1) * Qpow10 (x - 2)) * (v - y)) by ring.
+    rewrite Qabs_Qmult, Qabs_Qmult.
+    assert (S1 : Qabs (if qneg q then -(1) else 1) == 1) by (destruct (qneg q); reflexivity).
+    rewrite S1, (Qabs_pos (Qpow10 (x - 2))) by (apply Qlt_le_weak; exact P2).
+    rewrite Qmult_1_l, (Qmult_comm (1#2)). apply Qmult_le_l; [exact P2|exact Hv]. }
+  assert (Hm : Qabs (inject_Z m - y) <= 1#2) by (apply Qabs_Qle_condition; split; assumption).
+  destruct (m =? pow10 3)%Z eqn:Em.
+  - apply Z.eqb_eq in Em. change (pow10 3) with 1000%Z in Em.
+    unfold sci_value. change (pow10 (3 - 1) mod pow10 3)%Z with 100%Z. change (inject_Z (pow10 2)) with 100.
+    assert (E : (if qneg q then - (1) else 1) * (inject_Z 100 / 100) * Qpow10 (x + 1)
+                == (if qneg q then -(1) else 1) * (inject_Z m * Qpow10 (x - 2))).
+    { rewrite Em. replace (x + 1)%Z with (3 + (x - 2))%Z by lia. rewrite Qpow10_add, Qpow10_3.
+      change (inject_Z 100) with 100. change (inject_Z 1000) with 1000. field. }
+    rewrite E. apply Core. exact Hm.
+  - apply Z.eqb_neq in Em. change (pow10 3) with 1000%Z in Em.
+    unfold sci_value. rewrite Z.mod_small by (change (pow10 3) with 1000%Z; lia).
+    change (inject_Z (pow10 2)) with 100.
+    assert (E : (if qneg q then - (1) else 1) * (inject_Z m / 100) * Qpow10 x
+                == (if qneg q then -(1) else 1) * (inject_Z m * Qpow10 (x - 2))).
+    { replace x with (2 + (x - 2))%Z at 1 by lia. rewrite Qpow10_add, Qpow10_2. field. }
+    rewrite E. apply Core. exact Hm.
+Qed.
